@@ -170,7 +170,12 @@ def run_history(ck, drv, name, ctor, image, u, ops, seed, mm):
             flags = row[10:15]
             kinds = {0: "none", 1: "out", 2: "err"}
             bad = None
-            if kinds[okind] != res["kind"]:
+            if kinds[okind] == "err" and res["kind"] == "out" and op in (FWDB, INVB):
+                # the model keeps ONE liveness flag per cached entry and predicts "second backward through a freed graph";
+                # autograd raises only if a node of that graph saved tensors (QRLinear's logabsdet = sum(parameter) does
+                # not), so the model over-approximates this failure: accepted, values are not compared for this step
+                ck.count("model predicts a double-backward error, autograd has nothing freed to miss")
+            elif kinds[okind] != res["kind"]:
                 bad = "outcome: model %s, implementation %s %s" % (kinds[okind], res["kind"], res.get("msg", ""))
             elif flags != res["flags"]:
                 bad = "flags [training, using, w None, inv None, lad None]: model %s implementation %s" % (flags, res["flags"])
